@@ -572,7 +572,16 @@ class ListOf(Shape):
         ctx.assume(n >= self.minlen)
         if self.maxlen is not None:
             ctx.assume(n <= self.maxlen)
-        l = SList(elem=self.elem.array_elem(ctx, name), length=SNum(n), label=name, is_tuple=self.is_tuple)
+        base = self.elem.array_elem(ctx, name)
+        l = SList(elem=None, length=SNum(n), label=name, is_tuple=self.is_tuple)
+        oid = l.oid
+
+        def elem(j, base=base, oid=oid):
+            v = base(j)
+            if isinstance(v, SObj):
+                v.fields['__owner'] = oid
+            return v
+        l.elem = elem
         l.frozen = self.frozen
         l.shape = self
         return l
@@ -587,6 +596,10 @@ class ListOf(Shape):
         l = SList(items=[self.elem.engine_elem(name, ev, j) for j in range(min(n, 200))], label=name,
                   is_tuple=self.is_tuple)
         l.frozen = self.frozen
+        if not self.frozen:
+            for it in l.items:
+                if isinstance(it, SObj):
+                    it.frozen = False
         return l
 
     def array_elem(self, ctx, name):
